@@ -59,11 +59,12 @@ class PyEcoreValue(object):
 
     def check(self, value, _isinstance=EcoreUtils.isinstance):
         feature = self.feature
-        etype = self.generic_type or feature._eType
+        # the CURRENT declared type: the eType, else the raw type of the
+        # generic type (not remembered per slot: a feature can be re-typed)
+        etype = feature._eType
         if not etype:
             try:
                 etype = feature.eGenericType.eRawType
-                self.generic_type = etype
             except Exception:
                 raise AttributeError(f'Feature {feature} has no type'
                                      'nor generic')
